@@ -274,6 +274,7 @@ func cmdCheck(args []string) int {
 		*tier = "quick"
 	}
 	c := newCheck(id, *tier, seed)
+	c.ReportTier = requested
 	if requested != *tier {
 		fmt.Printf("NOTE: the deeper bounds of %s were not run to completion on the unchanged tree in the time available; the thorough tier of this check explores the quick-tier bounds\n", id)
 		c.Bounds = append(c.Bounds, "thorough tier = quick-tier bounds for this check: only bounds that ran clean on the unchanged tree are registered (DESIGN.md 10.5c)")
